@@ -3,7 +3,7 @@
 # seedbox.sh test <patch> <Cxx> [tier]  -- apply a seeded change inside the box, run the check there, undo
 # Lets seeded-change experiments run while /repo itself stays untouched (e.g. during long thorough runs).
 set -u
-BOX=/tmp/seedbox
+BOX=${SEEDBOX:-/tmp/seedbox}
 case "$1" in
 init)
   git -C /repo worktree remove --force $BOX/repo 2>/dev/null; git -C /repo worktree prune
